@@ -688,3 +688,166 @@ func init() {
 		},
 	})
 }
+
+// ---- sorter life cycle ----
+
+func init() {
+	register(&Rule{
+		ID: "C19-g", Template: "T2 never-follows (key fixed before the first row)",
+		Doc: "Every run of a sort is ordered by the same key: in every production function that both assigns Sorter.PK and adds rows to that sorter ((*Sorter).AddRow), no assignment of PK is reachable after an AddRow call unless a Reset lies in between. AddRow sorts and spills a full run with the key in force at that moment; a key assigned later leaves the spilled runs in a different order than the one the k-way merge assumes, so rows come out unsorted and duplicate keys survive.",
+		Min: 2,
+		Run: func(p *Program, r *RuleResult) error {
+			pk, err := p.Field("pkg/sorter.Sorter.PK")
+			if err != nil {
+				return err
+			}
+			addRow, err := p.MustFuncs("pkg/sorter.(*Sorter).AddRow")
+			if err != nil {
+				return err
+			}
+			reset, err := p.MustFuncs("pkg/sorter.(*Sorter).Reset")
+			if err != nil {
+				return err
+			}
+			fns := p.ProdFuncs()
+			r.Analysed = len(fns)
+			for _, fn := range fns {
+				adds := callsTo(fn, addRow)
+				if len(adds) == 0 {
+					continue
+				}
+				var stores []*ssa.Store
+				for _, b := range fn.Blocks {
+					for _, in := range b.Instrs {
+						if st, ok := in.(*ssa.Store); ok {
+							if fa, ok := st.Addr.(*ssa.FieldAddr); ok && structField(fa.X.Type(), fa.Field) == pk {
+								stores = append(stores, st)
+							}
+						}
+					}
+				}
+				block := map[ssa.Instruction]bool{}
+				for _, c := range callsTo(fn, reset) {
+					block[c] = true
+				}
+				for i, st := range stores {
+					key := fmt.Sprintf("%s|Sorter.PK=#%d", funcName(fn), i)
+					what := "the sort key is not changed once rows have been added"
+					bad := false
+					for _, a := range adds {
+						if path, reach := reachAfter(fn, a, st, nil, block); reach {
+							r.bad(key, p.Rel(st.Pos()), what, fmtPath("Sorter.PK is assigned after AddRow at "+p.Rel(a.Pos())+": runs spilled so far were sorted by the previous key", path))
+							bad = true
+							break
+						}
+					}
+					if !bad {
+						r.ok(key, p.Rel(st.Pos()), what)
+					}
+				}
+			}
+			return nil
+		},
+	})
+
+	register(&Rule{
+		ID: "C19-h", Template: "pairing (collector created / sorter closed)",
+		Doc: "The merge's result sorter is closed: every production function that creates a row collector (merge.CreateRowCollector — it owns the sorter that spills the merged rows) registers, on every path after the successful creation, a deferred call from which (*sorter.Sorter).Close is reachable in the call graph (the returned cleanup, or Merger.Close). With neither, the spill files of every merge stay on disk.",
+		Min: 1,
+		Run: func(p *Program, r *RuleResult) error {
+			crc, err := p.MustFuncs("pkg/merge.CreateRowCollector")
+			if err != nil {
+				return err
+			}
+			sclose, err := p.SSAFunc("pkg/sorter.(*Sorter).Close")
+			if err != nil {
+				return err
+			}
+			fns := p.ProdFuncs()
+			r.Analysed = len(fns)
+			reachesClose := func(fn *ssa.Function, d *ssa.Defer) bool {
+				var roots []*ssa.Function
+				roots = append(roots, p.Callees(fn, d)...)
+				if mc, ok := d.Call.Value.(*ssa.MakeClosure); ok {
+					if f, ok := mc.Fn.(*ssa.Function); ok {
+						roots = append(roots, f)
+					}
+				}
+				if len(roots) == 0 {
+					return false
+				}
+				return p.Reachable(p.CG, roots...)[sclose]
+			}
+			for _, fn := range fns {
+				for _, ci := range callsTo(fn, crc) {
+					call, ok := ci.(*ssa.Call)
+					if !ok {
+						continue
+					}
+					key := callKey(fn, ci)
+					what := "a deferred call that reaches Sorter.Close is registered on every path after the collector was created"
+					block := map[ssa.Instruction]bool{}
+					for _, b := range fn.Blocks {
+						for _, in := range b.Instrs {
+							if d, ok := in.(*ssa.Defer); ok {
+								if reachesClose(fn, d) {
+									r.note("%s: deferred call at %s reaches (*Sorter).Close", funcName(fn), p.Rel(d.Pos()))
+									block[d] = true
+								}
+							}
+						}
+					}
+					if len(block) == 0 {
+						r.bad(key, p.Rel(ci.Pos()), what, "no deferred call in "+funcName(fn)+" reaches (*sorter.Sorter).Close: the collector's sorter is never closed and its spill files are never removed")
+						continue
+					}
+					// the collector can hold rows (and spill files) once something it was
+					// handed to has succeeded: from there on every return needs the close
+					var coll ssa.Value
+					for _, ref := range *call.Referrers() {
+						if ex, ok := ref.(*ssa.Extract); ok && ex.Index == 0 {
+							coll = ex
+						}
+					}
+					var users []*ssa.Call
+					if coll != nil {
+						cv := forward([]ssa.Value{coll}, fwdOpts{noBinOp: true})
+						eachCall(fn, func(c ssa.CallInstruction) {
+							uc, ok := c.(*ssa.Call)
+							if !ok || uc == call {
+								return
+							}
+							for _, a := range uc.Call.Args {
+								if cv[a] {
+									users = append(users, uc)
+									return
+								}
+							}
+						})
+					}
+					bad := false
+					for _, u := range users {
+						// a close registered on every path leading to the use covers it
+						if _, reach := reachAfter(fn, nil, u, nil, block); !reach {
+							continue
+						}
+						for _, ret := range returnsOf(fn) {
+							if path, reach := reachAfter(fn, u, ret, mkCut(successEdgesFail(fn, u)), block); reach {
+								r.bad(key, p.Rel(ret.Pos()), what, fmtPath("after the collector was handed to "+calleeLabel(u)+" a return is reachable without a registered close", path))
+								bad = true
+								break
+							}
+						}
+						if bad {
+							break
+						}
+					}
+					if !bad {
+						r.ok(key, p.Rel(ci.Pos()), what)
+					}
+				}
+			}
+			return nil
+		},
+	})
+}
